@@ -201,6 +201,8 @@ def run_unit(name, fn, max_paths=200000, max_seconds=600, sample_limit=2, trace_
         envbox['env'] = env
         return fn(env)
 
+    adaptive = {'hard': set(), 'chunk': None}
+
     def on_path(r, ctx):
         env = envbox['env']
         if isinstance(r, Exception):
@@ -232,21 +234,48 @@ def run_unit(name, fn, max_paths=200000, max_seconds=600, sample_limit=2, trace_
         else:
             # joint query first; if the solver cannot decide it, decide each negated claim on its own (equivalent
             # to the joint disjunction, and much cheaper for 30 memory / register claims); first sat model wins
-            r0, m = ctx.model(disj, quick=True)
-            if r0 == z3.unknown:
-                parts = []
-                for ng in neg:
-                    sg = z3.simplify(ng)
-                    if not z3.is_false(sg):
-                        parts.append(sg)
-                r0, m = z3.unsat, None
-                for sg in parts:
-                    ri, mi = ctx.model(sg)
-                    if ri == z3.sat:
-                        r0, m = ri, mi
-                        break
-                    if ri == z3.unknown:
-                        r0 = z3.unknown
+            # joint obligation first; when the solver cannot decide a group of claims within the quick budget the
+            # group is halved (equivalent to the disjunction; one hard claim among 40 costs ~2 log2(40) queries).
+            # Claims found hard on an earlier path of this unit are decided on their own from the start.
+            def decide(idxs):
+                parts_ = [z3.simplify(neg[i]) for i in idxs]
+                live = [i for i, sg in zip(idxs, parts_) if not z3.is_false(sg)]
+                if not live:
+                    return z3.unsat, None
+                sg = z3.simplify(z3.Or(*[neg[i] for i in live])) if len(live) > 1 else z3.simplify(neg[live[0]])
+                _t = time.time()
+                ri, mi = ctx.model(sg, quick=len(live) > 1)
+                if os.environ.get('VERIF_SLOW') and time.time() - _t > 1.0:
+                    print('SLOW %.1fs %s %s' % (time.time() - _t, ri, [claims[i][0] for i in live][:6]), flush=True)
+                if ri != z3.unknown:
+                    return ri, mi
+                if len(live) == 1:
+                    adaptive['hard'].add(claims[live[0]][0])
+                    return ri, mi
+                # later paths of this unit (same claims, similar terms) start from groups of half this size
+                adaptive['chunk'] = min(adaptive['chunk'] or len(live), max(1, len(live) // 2))
+                mid = len(live) // 2
+                ra, ma = decide(live[:mid])
+                if ra == z3.sat:
+                    return ra, ma
+                rb, mb = decide(live[mid:])
+                if rb == z3.sat:
+                    return rb, mb
+                return (z3.unknown if z3.unknown in (ra, rb) else z3.unsat), None
+
+            easy = [i for i in range(len(claims)) if claims[i][0] not in adaptive['hard']]
+            hard = [i for i in range(len(claims)) if claims[i][0] in adaptive['hard']]
+            r0, m = z3.unsat, None
+            ch = adaptive['chunk'] or len(easy) or 1
+            for grp in [easy[j:j + ch] for j in range(0, len(easy), ch)] + [[i] for i in hard]:
+                if not grp:
+                    continue
+                ri, mi = decide(grp)
+                if ri == z3.sat:
+                    r0, m = ri, mi
+                    break
+                if ri == z3.unknown:
+                    r0 = z3.unknown
         if r0 == z3.unsat:
             if len(res.samples) < sample_limit and nontrivial:
                 res.samples.append({'unit': name, 'path_decisions': len(ctx.stack),
